@@ -25,14 +25,18 @@ package scheduler
 //@   ensures selector-gets-exactly-one-call:
 //@             initialSizeClassSelector != nil ==> selcalls(initialSizeClassSelector) == 1
 //@   at call newOperation#2 assert only-cacheable-actions-are-registered:
-//@             (actionDigest in bq.inFlightDeduplicationMap) ==
-//@               (!action.DoNotCache || old(actionDigest in bq.inFlightDeduplicationMap))
+//@             (actionDigest in bq.inFlightDeduplicationMap) == !action.DoNotCache
+//@   at call newOperation#2 assert registered-for-the-new-task:
+//@             !action.DoNotCache ==> bq.inFlightDeduplicationMap[actionDigest] == t
+//@   at call newOperation#1 assert attaches-to-the-registered-task:
+//@             arg0 == bq.inFlightDeduplicationMap[actionDigest] && arg0 != nil
 
 // Completing a task may only remove the task's own entry from the in-flight
 // deduplication map, and only when the task is final (not on the retry on the
 // largest size class).
 //@ func (*task).complete
 //@   props C03
+//@   requires executeResponse != nil
 //@   ensures entries-of-other-tasks-untouched:
 //@             forall d digest.Digest ::
 //@               old(d in bq.inFlightDeduplicationMap) && old(bq.inFlightDeduplicationMap[d]) != t ==>
